@@ -64,8 +64,11 @@ def one_dump(ctx, rng, idx, pending):
         'pkg_rows': counters.get('datapackage-rowcount', 'count_of_rows'), 'pkg_bytes': counters.get('datapackage-bytes', 'bytes'),
         'pkg_hash': counters.get('datapackage-hash', 'hash'), 'res_rows': counters.get('resource-rowcount', 'count_of_rows'),
         'res_bytes': counters.get('resource-bytes', 'bytes'), 'res_hash': counters.get('resource-hash', 'hash')}
+    # where the process stands while dumping: anywhere (absolute target), or in a directory that already holds a dump
+    # of the same data to '.', the target being a relative sub-directory
+    cwd_mode = target == 'path' and rng.random() < 0.35
     case = {'tables': [len(t) for t in tables], 'format': fmt, 'target': target, 'add_filehash_to_path': filehash,
-            'pretty_descriptor': pretty, 'counters': style}
+            'pretty_descriptor': pretty, 'counters': style, 'cwd_holds_an_earlier_dump': cwd_mode}
 
     def run(tag):
         base = os.path.join(ctx.scratch, 'd%d%s' % (idx, tag))
@@ -75,13 +78,26 @@ def one_dump(ctx, rng, idx, pending):
             if not t:
                 steps.append(DF.filter_rows(equals=[{'id': -1}], resources='res_%d' % (i + 1)))
         kw = dict(format=fmt, counters=copy.deepcopy(counters), add_filehash_to_path=filehash, pretty_descriptor=pretty)
-        if target == 'path':
-            steps.append(DF.dump_to_path(base, **kw))
+        if target == 'path' and cwd_mode:
+            work = base
+            base = os.path.join(work, 'mirror')
+            os.makedirs(work, exist_ok=True)
+            old = os.getcwd()
+            os.chdir(work)
+            try:
+                with quiet():
+                    Flow(*[copy.deepcopy(x) for x in steps], DF.dump_to_path('.', **copy.deepcopy(kw))).process()
+                    dp, stats = Flow(*steps, DF.dump_to_path('mirror', **kw)).process()
+            finally:
+                os.chdir(old)
         else:
-            os.makedirs(base, exist_ok=True)
-            steps.append(DF.dump_to_zip(os.path.join(base, 'o.zip'), **kw))
-        with quiet():
-            dp, stats = Flow(*steps).process()
+            if target == 'path':
+                steps.append(DF.dump_to_path(base, **kw))
+            else:
+                os.makedirs(base, exist_ok=True)
+                steps.append(DF.dump_to_zip(os.path.join(base, 'o.zip'), **kw))
+            with quiet():
+                dp, stats = Flow(*steps).process()
         if target == 'path':
             def read(p):
                 with open(os.path.join(base, p), 'rb') as f:
